@@ -5,7 +5,6 @@ F=$1; LBL=$2; M=${3:-1}
 W=/verif/build/work/one; mkdir -p $W
 awk -v l="SCEN $LBL" '$0==l{p=1;print;next} /^SCEN /{p=0} p{print}' $F > $W/one.scen
 cat $W/one.scen
-L=$(/verif/harness/build.sh hooks)
-D=$(ls -t $L/drv-grid_replay-* | head -1)
+D=$(cd /verif && python3 -c "import sys; sys.path.insert(0,'lib'); import vf; print(vf.compile_driver('grid_replay.cpp', vf.build_lib('hooks')))" | tail -1)
 (cd $W && $D one.scen one.ndjson $M .)
 cd /verif/spec && TRACE=$W/one.ndjson timeout 900 java -cp /opt/veriftools/tla/tla2tools.jar:/opt/veriftools/tla/CommunityModules-deps.jar tlc2.TLC -workers 1 -metadir $W/meta -noGenerateSpecTE -config GridTrace.cfg GridTrace.tla 2>&1 | grep -A3 "REJECTED\|FAIL\|^Error\|states generated" | head -20
